@@ -206,6 +206,15 @@ impl EventFold {
 }
 
 pub fn run(ctx: &crate::Ctx) -> crate::evidence::Report {
+  if let Some(path) = &ctx.replay {
+    let v: serde_json::Value = serde_json::from_str(&std::fs::read_to_string(path).expect("read replay")).expect("json");
+    let suite = v["replay"]["suite"].as_str().unwrap_or("");
+    return if suite.starts_with("runes") || v["replay"]["scenario"].is_string() {
+      super::runes::run_into(ctx, "C37", crate::evidence::Report::new("C37", &ctx.tier, "model_checking"))
+    } else {
+      super::inscriptions::run(ctx, "C37")
+    };
+  }
   let report = super::inscriptions::run(ctx, "C37");
   super::runes::run_into(ctx, "C37", report)
 }
